@@ -32,6 +32,7 @@ type Env struct {
 	Trace       bool
 	SolverLog   string
 	MaxViol     int
+	KnownKeys   []string // known-finding keys (spaces as _) of the property being checked
 	BigNewIntZ  bool
 	NoFold      bool
 
@@ -61,6 +62,16 @@ func NewEnv(prog *ssa.Program) *Env {
 	}
 	e.intrinsics = allIntrinsics()
 	return e
+}
+
+func (e *Env) isKnown(v Violation) bool {
+	k := strings.ReplaceAll(v.Harness+":"+v.Msg, " ", "_")
+	for _, key := range e.KnownKeys {
+		if key != "" && strings.Contains(k, key) {
+			return true
+		}
+	}
+	return false
 }
 
 func (e *Env) intrinsic(name string) intrinsicImpl {
@@ -309,6 +320,7 @@ func Explore(env *Env, h *ssa.Function) *HarnessResult {
 	cond := sync.NewCond(&mu)
 	deadline := t0.Add(env.Budget)
 	stop := false
+	knownKept, unknownViol := 0, 0
 
 	worker := func(id int) {
 		m, err := newMachine(env)
@@ -378,7 +390,17 @@ func Explore(env *Env, h *ssa.Function) *HarnessResult {
 				}
 			}
 			for _, v := range res.Violations {
-				if len(hr.Violations) < env.MaxViol {
+				// violations matching a recorded known finding are sampled but never
+				// use up the cap that stops the exploration
+				if env.isKnown(v) {
+					if knownKept < 3 {
+						knownKept++
+						hr.Violations = append(hr.Violations, v)
+					}
+					continue
+				}
+				if unknownViol < env.MaxViol {
+					unknownViol++
 					hr.Violations = append(hr.Violations, v)
 				}
 			}
@@ -395,8 +417,11 @@ func Explore(env *Env, h *ssa.Function) *HarnessResult {
 				}
 				stop = true
 			}
-			if len(hr.Violations) >= env.MaxViol {
+			if unknownViol >= env.MaxViol {
 				stop = true
+				if len(work) > 0 || active > 0 {
+					hr.Truncated = true
+				}
 			}
 			mu.Unlock()
 			cond.Broadcast()
